@@ -4,6 +4,7 @@ import (
 	"bufio"
 	"bytes"
 	"crypto/sha256"
+	"crypto/tls"
 	"encoding/hex"
 	"errors"
 	"fmt"
@@ -54,6 +55,9 @@ type tunnelCase struct {
 	ReplyVariant int `json:"reply_variant,omitempty"`
 	// HeadVariant: 1 = the CONNECT request carries a Content-Length
 	HeadVariant int `json:"head_variant,omitempty"`
+	// Duplex: Up1 and Down1 are both large, so that both endpoints stream their own pseudo-random
+	// payload at the same time (full duplex) before either half-closes
+	Duplex bool `json:"duplex,omitempty"`
 }
 
 // payload derives n bytes from a seed (splitmix64).
@@ -86,6 +90,35 @@ type dirObs struct {
 	AfterEOF  int    `json:"after_eof"` // bytes the source sent after it had seen the other side's EOF
 
 	sent, got []byte
+	// when the destination endpoint read its first and its last payload byte
+	firstAt, lastAt time.Time
+}
+
+// arrived notes that payload bytes of this direction reached the destination endpoint just now.
+func (d *dirObs) arrived() {
+	now := time.Now()
+	if d.firstAt.IsZero() {
+		d.firstAt = now
+	}
+	d.lastAt = now
+}
+
+// overlap: for how long payload of both directions was arriving at the endpoints at the same time.
+func overlap(a, b *dirObs) time.Duration {
+	if a.firstAt.IsZero() || b.firstAt.IsZero() {
+		return 0
+	}
+	from, to := a.firstAt, a.lastAt
+	if b.firstAt.After(from) {
+		from = b.firstAt
+	}
+	if b.lastAt.Before(to) {
+		to = b.lastAt
+	}
+	if to.Before(from) {
+		return 0
+	}
+	return to.Sub(from)
 }
 
 type tunnelObs struct {
@@ -99,6 +132,7 @@ type tunnelObs struct {
 	Error       string  `json:"error,omitempty"`
 	Stalled     bool    `json:"stalled,omitempty"` // given up: no byte moved for the stall limit
 	ElapsedMs   int64   `json:"elapsed_ms"`
+	OverlapUs   int64   `json:"duplex_overlap_us"` // both directions were arriving at the endpoints for this long together
 	OpenClient  float64 `json:"open_client_sockets"`
 	OpenTarget  float64 `json:"open_target_sockets"`
 	closureErr  string
@@ -137,6 +171,9 @@ func headPieces(tc *tunnelCase, headLen int, first []byte) [][]byte {
 func sha(b []byte) string { h := sha256.Sum256(b); return hex.EncodeToString(h[:8]) }
 
 func firstDiff(got, sent []byte) int {
+	if len(got) <= len(sent) && bytes.Equal(got, sent[:len(got)]) {
+		return -1
+	}
 	n := len(got)
 	if len(sent) < n {
 		n = len(sent)
@@ -238,14 +275,20 @@ func readAll(r io.Reader, limit int, tick func()) ([]byte, error) {
 }
 
 func clientHead(tc *tunnelCase, far string) []byte {
-	if baseMode(tc.Mode) == "upgrade" {
+	bm := baseMode(tc.Mode)
+	if bm == "upgrade" {
 		return []byte("GET http://up.test/" + far + " HTTP/1.1\r\nHost: up.test\r\nConnection: Upgrade\r\nUpgrade: verif\r\n\r\n")
+	}
+	head := "CONNECT " + far + ".test:443 HTTP/1.1\r\nHost: " + far + ".test:443\r\n"
+	if bm == "terminate" {
+		// proxy_connect.go: the proxy itself speaks TLS to the target, the client's bytes travel inside
+		head += "X-Martian-Terminate-Tls: true\r\n"
 	}
 	if tc.HeadVariant == 1 {
 		// RFC 9110 9.3.6: a CONNECT request has no content; a Content-Length on it is to be ignored
-		return []byte("CONNECT " + far + ".test:443 HTTP/1.1\r\nHost: " + far + ".test:443\r\nContent-Length: 7\r\n\r\n")
+		head += "Content-Length: 7\r\n"
 	}
-	return []byte("CONNECT " + far + ".test:443 HTTP/1.1\r\nHost: " + far + ".test:443\r\n\r\n")
+	return []byte(head + "\r\n")
 }
 
 var socksPre = []byte{5, 0}
@@ -290,12 +333,23 @@ func (e *env) runTunnel(tc *tunnelCase, stall, limit time.Duration) *tunnelObs {
 	obs.HeadLen = len(head)
 	obs.ClientHeadSent = string(head)
 
-	conn, err := net.DialTimeout("tcp", e.proxy.Addr, 5*time.Second)
+	tcpConn, err := net.DialTimeout("tcp", e.proxy.Addr, 5*time.Second)
 	if err != nil {
 		obs.Error = "dial proxy: " + err.Error()
 		return obs
 	}
-	defer conn.Close()
+	var conn net.Conn = tcpConn
+	defer func() { conn.Close() }()
+	if e.spec.tlsListener {
+		// TLS first (the listener's certificate is self-signed), then the request
+		tconn := tls.Client(tcpConn, &tls.Config{InsecureSkipVerify: true})
+		tconn.SetDeadline(time.Now().Add(20 * time.Second))
+		if err := tconn.Handshake(); err != nil {
+			obs.Error = "TLS handshake with the proxy's listener: " + errKind(err)
+			return obs
+		}
+		conn = tconn
+	}
 	conn.SetDeadline(deadline)
 	cbr := bufio.NewReaderSize(conn, 64<<10)
 
@@ -386,7 +440,7 @@ func (e *env) runTunnel(tc *tunnelCase, stall, limit time.Duration) *tunnelObs {
 			fail(fmt.Sprintf("proxy answered %d", st))
 			return
 		}
-		got, err := readAll(cbr, len(down)+1024, tick)
+		got, err := readAll(cbr, len(down)+1024, func() { tick(); obs.Down.arrived() })
 		obs.Down.got = got
 		obs.Down.EOF = errors.Is(err, io.EOF)
 		if !obs.Down.EOF {
@@ -449,7 +503,8 @@ func (e *env) runTunnel(tc *tunnelCase, stall, limit time.Duration) *tunnelObs {
 				return
 			}
 		}
-		if err := conn.(*net.TCPConn).CloseWrite(); err != nil {
+		// TCP: FIN; TLS listener: close_notify, which the proxy's Read reports as end-of-stream
+		if err := conn.(interface{ CloseWrite() error }).CloseWrite(); err != nil {
 			obs.Up.WriteErr = "closewrite: " + errKind(err)
 			return
 		}
@@ -495,7 +550,7 @@ func (e *env) runTunnel(tc *tunnelCase, stall, limit time.Duration) *tunnelObs {
 		go func() { // far reader
 			defer fw.Done()
 			defer close(farEOF)
-			got, err := readAll(fe.br, len(up)+1024, tick)
+			got, err := readAll(fe.br, len(up)+1024, func() { tick(); obs.Up.arrived() })
 			obs.Up.got = got
 			obs.Up.EOF = errors.Is(err, io.EOF)
 			if !obs.Up.EOF {
@@ -558,5 +613,6 @@ func (e *env) runTunnel(tc *tunnelCase, stall, limit time.Duration) *tunnelObs {
 		d.SentSHA, d.GotSHA = sha(d.sent), sha(d.got)
 		d.FirstDiff = firstDiff(d.got, d.sent)
 	}
+	obs.OverlapUs = overlap(&obs.Up, &obs.Down).Microseconds()
 	return obs
 }
